@@ -520,7 +520,7 @@ func checkClusterNodesParser(c *Ctx, rule string) {
 			for side, succ := range iff.Block().Succs {
 				rejects := false
 				if len(succ.Preds) == 1 {
-					if ret, ok := succ.Instrs[len(succ.Instrs)-1].(*ssa.Return); ok && len(ret.Results) == 2 && !isNilConst(ret.Results[1]) {
+					if ret, ok := succ.Instrs[len(succ.Instrs)-1].(*ssa.Return); ok && len(ret.Results) == 2 && !isNilConst(returnedValues(ret)[1]) {
 						rejects = true
 					}
 				}
